@@ -9,15 +9,14 @@ Open Scope Z_scope.
 Section Inv.
 Variable B : backend.
 Hypothesis HS : forall l, good_base (sanitize B l).
-Hypothesis HK1 : forall s, ends_us s = true -> is_kw B s = false.
-Hypothesis HK2 : forall s, has_suffix_shape s = true -> is_kw B s = false.
+Hypothesis HK1 : forall s, has_dunder s = false -> ends_us s = true -> is_kw B s = false.
 
 (* what one issued name looks like *)
 Definition issuable (n : str) : Prop :=
   exists base, good_base base /\ (n = first_form B base \/ exists k, n = suffix_form base k).
 
 Definition name_ok (n : str) : Prop :=
-  n <> [] /\ forallb is_word n = true /\ is_kw B n = false /\ has_dunder n = false /\ is_temp_name n = false.
+  n <> [] /\ forallb is_word n = true /\ has_dunder n = false /\ is_temp_name n = false.
 
 Lemma good_base_app_us : forall b, good_base b -> has_dunder (b ++ [US]) = false.
 Proof.
@@ -41,7 +40,6 @@ Proof.
   - pose proof (good_base_app_us b G) as Hd. destruct G as [G1 [G2 [G3 G4]]]. repeat split.
     + destruct b; discriminate.
     + rewrite forallb_app, G2. reflexivity.
-    + apply HK1. apply ends_us_app.
     + exact Hd.
     + destruct (is_temp_name (b ++ [US])) eqn:T; [|reflexivity]. apply temp_name_ends_digit in T.
       rewrite ends_digit_app in T. discriminate.
@@ -53,7 +51,6 @@ Proof.
   - unfold suffix_form. destruct b; discriminate.
   - unfold suffix_form. rewrite forallb_app, G2. simpl.
     apply (forallb_impl is_digit is_word _ digit_is_word). apply dec_all_digits.
-  - apply HK2. apply suffix_form_shape. exact G1.
   - unfold suffix_form. change (US :: dec k) with ([US] ++ dec k). rewrite app_assoc.
     rewrite <- has_dunder_rev. rewrite rev_app_distr.
     rewrite has_dunder_nous_app.
@@ -66,6 +63,15 @@ Qed.
 Lemma issuable_ok : forall n, issuable n -> name_ok n.
 Proof.
   intros n [b [G [E | [k E]]]]; subst; [apply first_form_ok | apply suffix_form_ok]; exact G.
+Qed.
+
+(* an issued name can only be a table keyword if it is a collision-suffixed name x_<digits> *)
+Lemma issuable_kw : forall n, issuable n -> is_kw B n = true -> has_suffix_shape n = true.
+Proof.
+  intros n [b [G [E | [k E]]]] K; subst.
+  - exfalso. destruct (first_form_cases b) as [[E [_ K']] | [E _]]; rewrite E in K; [congruence|].
+    rewrite HK1 in K; [discriminate | apply good_base_app_us; exact G | apply ends_us_app].
+  - apply suffix_form_shape. destruct G as [G _]. exact G.
 Qed.
 
 (* ---------------------------------------------------------- unique decomposition *)
@@ -259,6 +265,22 @@ Proof.
   intros ops st st' outs n Hst Hr Hin. pose proof (run_ok _ _ _ _ Hst Hr) as Hok.
   destruct (run_outs_recorded _ _ _ _ _ Hr Hin) as [f [Hf Hn]].
   destruct (Hok f Hf) as [_ [Hfrom Hmap]]. apply issuable_ok. eapply from_base_issuable; eauto.
+Qed.
+
+Theorem namer_issuable : forall ops st st' outs n,
+  state_ok st -> run B st ops = (st', outs) -> In (Some n) outs -> issuable n.
+Proof.
+  intros ops st st' outs n Hst Hr Hin. pose proof (run_ok _ _ _ _ Hst Hr) as Hok.
+  destruct (run_outs_recorded _ _ _ _ _ Hr Hin) as [f [Hf Hn]].
+  destruct (Hok f Hf) as [_ [Hfrom Hmap]]. eapply from_base_issuable; eauto.
+Qed.
+
+(* an issued name that ends in a digit is a collision-suffixed name x_<digits> *)
+Lemma issuable_digit_shape : forall n, issuable n -> ends_digit n = true -> has_suffix_shape n = true.
+Proof.
+  intros n [b [G [E | [k E]]]] D; subst.
+  - rewrite first_form_not_digit_end in D. discriminate.
+  - apply suffix_form_shape. destruct G as [G _]. exact G.
 Qed.
 
 (* identifier grammar, given that the sanitized labels do not start with a digit *)
